@@ -3,6 +3,8 @@
 //! Exit codes: 0 = ran to completion (verdicts are in the output files; the `check` driver decides),
 //! 2 = tool error. This binary never prints VIOLATION lines itself.
 
+mod gate;
+mod hybrid;
 mod inflight;
 mod mem;
 
@@ -146,6 +148,15 @@ fn inflight_replay(args: &[String]) {
     replay_generic(args, &|| inflight::InflightEngine::new(&cfg, callers.clone()), inflight::nontrivial);
 }
 
+fn hybrid_replay(args: &[String]) {
+    let cfg = load_cfg(args);
+    let hpath = arg(args, "--hcfg").unwrap_or_else(|| die("--hcfg missing"));
+    let hcfg: hybrid::HybridCfg =
+        serde_json::from_str(&std::fs::read_to_string(&hpath).unwrap_or_else(|e| die(format!("{hpath}: {e}"))))
+            .unwrap_or_else(|e| die(format!("{hpath}: {e}")));
+    replay_generic(args, &|| hybrid::HybridRunner::new(&cfg, &hcfg), hybrid::nontrivial);
+}
+
 fn load_cfg(args: &[String]) -> mem::MemCfg {
     let cfg_path = arg(args, "--cfg").unwrap_or_else(|| die("--cfg missing"));
     let cfg: mem::MemCfg =
@@ -260,7 +271,7 @@ fn replay_generic<E: Engine>(args: &[String], make: &(dyn Fn() -> Result<E, Stri
                 if root {
                     n_roots += 1;
                 }
-                if mismatches.len() < 50 && root {
+                if mismatches.len() < 400 && root {
                     let mut m = m.clone();
                     m["script"] = json!(idx);
                     m["root"] = json!(root);
@@ -347,6 +358,7 @@ fn main() {
         Some("mem-replay") => mem_replay(&args[2..]),
         Some("mem-random") => mem_random(&args[2..]),
         Some("inflight-replay") => inflight_replay(&args[2..]),
+        Some("hybrid-replay") => hybrid_replay(&args[2..]),
         _ => die("usage: harness <mem-replay> ..."),
     }
 }
